@@ -427,12 +427,28 @@ def oracle_c09(case, obs, res):
         return res
     # deferred requests: accepted foreign 'defer' calls and in-plan pause(defer=True) messages
     acc = [r for r in obs.foreign if r["label"] == "defer" and r.get("state") == "returned" and r.get("seg") == 0]
-    others = [i for i in obs.injected if i["inj"]["do"] != "defer"]
+    others = [i for i in obs.injected if i["inj"]["do"] not in ("defer", "suspend")]
+    if any(i["inj"]["do"] == "suspend" for i in obs.injected):
+        res.classes.append("deferred_pause_with_suspension")
     if not acc or others:
         res.classes.append("no_single_deferred_request")
         return res
+    if any(h["msg"].command == "pause" and id(h["msg"]) in obs.plog.msg_ids for h in obs.hook):
+        res.classes.append("in_plan_pause_present")
+        return res
     c = obs.calls[0]
     end = c.get("hook_end", len(obs.hook))
+    if any(i["inj"]["do"] == "suspend" for i in obs.injected):
+        # a suspension may cancel the checkpoint's grace sleep in flight and rewind; only require that the
+        # deferred request is not lost: the engine pauses at some checkpoint, or the request stays pending
+        flagged = [hi for hi in range(len(obs.hook)) if obs.hook[hi]["deferred"]]
+        paused_any = any(s_[0] == "paused" for s_ in obs.states)
+        term = any(s_[0] in ("aborting", "stopping", "halting") for s_ in obs.states)
+        last = [x for x in obs.calls if x.get("outcome") in ("return", "raise") and x["do"] in ("call", "resume")]
+        if flagged and not paused_any and not term and last and last[-1]["outcome"] == "return" and not last[-1].get("deferred_after"):
+            res.fail("deferred_pause_lost", "a deferred pause was pending, a suspension came in between; the plan then ran to completion without pausing and the request is no longer pending", **F())
+        res.nontrivial = bool(flagged)
+        return res
     # first hook (in stage 0) that saw the flag set
     seen = [hi for hi in range(0, end) if obs.hook[hi]["deferred"]]
     # first checkpoint whose hook saw the flag set
@@ -960,7 +976,7 @@ def oracle_c11(case, obs, res):
             res.classes.append("terminated_during_suspension")
             continue
         paused_during = any(s0 < p <= upto for p in pauses)
-        other_start = any(s0 < o <= upto for o in starts)
+        other_start = any(s0 < o <= upto + 8 for o in starts)  # incl. one landing before the helper plan has finished
         held = obs.hook[s0 + 1 : upto]
         intruders = [(s0 + 1 + j, h["msg"].command) for j, h in enumerate(held) if id(h["msg"]) in user]
         if intruders:
@@ -986,6 +1002,24 @@ def oracle_c11(case, obs, res):
         if rel is None or paused_during or other_start:
             res.classes.append("suspension_complex" if rel is not None else "never_released")
             continue
+        # the helper must put the rewindable flag back the way it was before the suspension
+        pre_rew = True
+        for h in obs.hook[:s0]:
+            if h["msg"].command == "rewindable" and h["msg"].args and h["msg"].args[0] is not None:
+                pre_rew = bool(h["msg"].args[0])
+        k_res = next((j for j in range(upto, len(obs.hook)) if obs.hook[j]["msg"].command == "_resume_from_suspender"), None)
+        if k_res is not None:
+            restore = next(
+                (obs.hook[j]["msg"] for j in range(k_res, min(len(obs.hook), k_res + 8))
+                 if obs.hook[j]["msg"].command == "rewindable" and id(obs.hook[j]["msg"]) not in user),
+                None,
+            )
+            if restore is not None and restore.args and bool(restore.args[0]) != pre_rew:
+                res.fail(
+                    "rewindable_not_restored",
+                    f"plan was rewindable={pre_rew} before the suspension; the helper plan set rewindable={restore.args[0]!r} afterwards",
+                    **F(),
+                )
         # after the release: _resume_from_suspender, post plan, rewindable, then the replay (checked by C04's model)
         after = [h["msg"].command for h in obs.hook[upto : upto + 12] if id(h["msg"]) not in user]
         if "_resume_from_suspender" not in after:
